@@ -4,6 +4,11 @@
  * lean/Cstl/Heap/Main.lean.
  *
  * ops      push <key> <id> | pop | get | size | clear | dump | fls <x>
+ *          bulk <n> <nprio> <seed>   (heap must be empty) n pushes of elements
+ *          with LCG priorities below nprio from a separate big pool, size and
+ *          get checked after each against a counting ledger, then n pops, each
+ *          checked to be a held element of maximal priority; result
+ *          `ok ck=<checksum of the pop order>` or `bad step=<k> <what>`
  * output   <result> | n=<size> c=<0|1> [<slot>:<id>:<key>,...]
  *
  * Elements live in a static pool; element id = pool index + 1 (0 = NULL).
@@ -221,6 +226,95 @@ static void clr(void * e, void * p)
     POISON(el, sizeof(*el));
 }
 
+/* ---- bulk: large heaps (slot numbers far beyond what the pool reaches) ---- */
+
+static void bulk(size_t n, long nprio, unsigned long seed)
+{
+    struct elem * big;
+    unsigned char * gone;
+    size_t * cnt;
+    size_t i;
+    long mx = -1;
+    unsigned long x = seed % 2147483648UL;
+    unsigned long long ck = 7;
+    const unsigned long long P = 2147483647ULL;
+    const char * what = NULL;
+    size_t step = 0;
+
+    big = calloc(n ? n : 1, sizeof(*big));
+    gone = calloc(n ? n : 1, 1);
+    cnt = calloc((size_t)nprio, sizeof(*cnt));
+    if (big == NULL || gone == NULL || cnt == NULL) {
+        h_stop("bad-op");
+        return;
+    }
+    for (i = 0; i < n && what == NULL; i++) {
+        const struct elem * g;
+        long k;
+        x = (x * 1103515245UL + 12345UL) % 2147483648UL;
+        k = (long)((x / 256) % (unsigned long)nprio);
+        big[i].key = (int)k;
+        cstl_heap_push(&heap, &big[i]);
+        cnt[k]++;
+        if (k > mx) {
+            mx = k;
+        }
+        step++;
+        if (cstl_heap_size(&heap) != i + 1) {
+            what = "size-after-push";
+            break;
+        }
+        g = cstl_heap_get(&heap);
+        if (g == NULL || g < big || g >= big + n || g->key != (int)mx) {
+            what = "get-not-a-held-maximum";
+            break;
+        }
+    }
+    for (i = 0; i < n && what == NULL; i++) {
+        const struct elem * e;
+        size_t idx;
+        step++;
+        e = cstl_heap_pop(&heap);
+        while (mx >= 0 && cnt[mx] == 0) {
+            mx--;
+        }
+        if (e == NULL || e < big || e >= big + n
+            || ((const char *)e - (const char *)big) % sizeof(*big) != 0) {
+            what = "pop-not-an-element";
+            break;
+        }
+        idx = (size_t)(e - big);
+        if (gone[idx]) {
+            what = "pop-returned-element-twice";
+            break;
+        }
+        if (mx < 0 || e->key != (int)mx) {
+            what = "pop-not-a-maximum";
+            break;
+        }
+        gone[idx] = 1;
+        cnt[mx]--;
+        if (cstl_heap_size(&heap) != n - i - 1) {
+            what = "size-after-pop";
+            break;
+        }
+        ck = (ck * 1000003ULL + (idx + 1) % P) % P;
+    }
+    if (what == NULL && (cstl_heap_pop(&heap) != NULL || cstl_heap_get(&heap) != NULL)) {
+        what = "not-empty-after-draining";
+    }
+    if (what != NULL) {
+        outf("bad step=%zu %s", step, what);
+        /* the big pool goes away: start over with an empty heap */
+        cstl_heap_init(&heap, cmp_elem, H_PRIV(1), offsetof(struct elem, hn));
+    } else {
+        outf("ok ck=%llu", ck);
+    }
+    free(cnt);
+    free(gone);
+    free(big);
+}
+
 static struct elem * elem_of(const char * s)
 {
     long id = atol(s);
@@ -294,6 +388,13 @@ static void op(int argc, char ** argv)
     } else if (!strcmp(o, "dump") && argc == 1) {
         full = 1;
         outf("ok");
+    } else if (!strcmp(o, "bulk") && argc == 4 && heap.bt.size == 0 && heap.bt.root == NULL
+               && h_size(argv[1]) <= 4000000 && h_int(argv[2]) >= 1 && h_int(argv[2]) <= 1000000) {
+        struct itimerval it;
+        memset(&it, 0, sizeof(it));
+        it.it_value.tv_sec = 60;
+        setitimer(ITIMER_VIRTUAL, &it, NULL);
+        bulk(h_size(argv[1]), (long)h_int(argv[2]), (unsigned long)h_size(argv[3]));
     } else if (!strcmp(o, "fls") && argc == 2) {
         outf("%d", cstl_fls((unsigned long)h_size(argv[1])));
     } else {
